@@ -14,6 +14,10 @@ import (
 
 // VerifSetBufferSizes overrides the package-level tuning knobs computed in init().
 func VerifSetBufferSizes(writeMax uint32, stripedMax int) {
+	// the harness's small maxima must stay legal for whatever initial capacity the tree uses
+	if writeMax < minWriteBufferSize {
+		writeMax = minWriteBufferSize
+	}
 	maxWriteBufferSize = writeMax
 	maxStripedBufferSize = stripedMax
 }
